@@ -1,12 +1,14 @@
 #!/usr/bin/env python3
-"""usage: seedmeta.py <seed-id> <property> <caught_by text>"""
-import json,sys
-sid,prop,caught=sys.argv[1:4]
+"""usage: seedmeta.py <seed-id> <property> <round> <caught_by text>   -- writes seeded/<id>/meta.json from the agent's meta + my logs"""
+import json,sys,subprocess
+sid,prop,rnd,caught=sys.argv[1:5]
 d='/verif/seeded/'+sid
 a=json.load(open(d+'/meta.agent.json'))
 log=open(d+'/confirm.log').read()
-m=dict(property=prop, breaks=a.get('summary'), needs_to_manifest=a.get('needs_to_manifest'), files_changed=a.get('files_changed'),
-       demo_cmd=a.get('demo_cmd'), confirmed_by_me=log.strip().splitlines()[-1],
-       what_i_ran="tools/confirm_seed.sh: existing crate tests with mutation (pass); demo with mutation (fails); demo without (passes) - see confirm.log",
-       caught_by=caught, base_commit="e043778 (pre-fix snapshot)")
+base=subprocess.run(['git','-C','/repo','rev-parse','--short','HEAD'],capture_output=True,text=True).stdout.strip()
+m=dict(property=prop, breaks=a.get('breaks') or a.get('summary'), needs_to_manifest=a.get('needs_to_manifest'), files_changed=a.get('files_changed'),
+       demo_cmd="cd node && CARGO_NET_OFFLINE=true cargo test -p %s --offline -- %s" % (a.get('crate'), a.get('demo_filter','')),
+       confirmed_by_me=log.strip().splitlines()[-1],
+       what_i_ran="tools/confirm_seed.sh in the agent's scratch worktree: existing crate tests with the change (pass); demo with the change (fails); demo without (passes) - see confirm.log; then tools/seedtest.sh (apply to /repo, quick check, revert) - see check.log",
+       caught_by=caught, base_commit=base+" (HEAD of /repo when the agents started)", round=int(rnd))
 json.dump(m,open(d+'/meta.json','w'),indent=1)
